@@ -1,4 +1,5 @@
 import Tickit.Proof.RBFlushTextRun
+import Tickit.Proof.RBFlushReach
 /-
   C04 — flushing a render buffer reproduces its content on the terminal exactly once.
 
@@ -151,6 +152,15 @@ def FlushSpec (rb : RB) : Prop :=
     position, terminal pen, oracle for the cursor after `erasech(…, MAYBE)` and print path. -/
 theorem flush_spec (rb : RB) (hwf : FlushWF rb) : FlushSpec rb :=
   fun t => flush_spec_of_text hwf (fun _ _ h1 h2 h3 hr hs => text_run ⟨h1, h2⟩ h3 hr hs) t
+
+/-- **flush_spec_reachable**: `FlushSpec` for the buffer any drawing program (the operations of C03, engine `rb`)
+    leaves behind on a fresh buffer, given that what it drew is presentable (`ContentOK`: line styles 1 … 3 so that masks
+    are 1 … 255, CHAR code points one column wide, texts accepted by the width counter).  The run structure is C03's
+    invariant `WF` (`run_wf`); `ContentOK` is not tracked by that invariant and stays a hypothesis. -/
+theorem flush_spec_reachable (lines cols g1 g2 : Int) (hl : 0 ≤ lines) (hc : 0 < cols) (prog : List Op)
+    (hcont : ContentOK (RB.run (RB.new lines cols g1 g2) prog)) :
+    FlushSpec (RB.run (RB.new lines cols g1 g2) prog) :=
+  flush_spec _ (flushWF_of_WF (run_wf prog (new_refines lines cols g1 g2 hl hc).1) hcont)
 
 /-- Everything to the right of a text lands in its own column: after the requests of a TEXT run the terminal cursor
     has advanced by exactly the run's columns, whatever part of the text the run shows. -/
